@@ -1,6 +1,8 @@
 package checks
 
 import (
+	"path/filepath"
+	"os"
 	"bytes"
 	"encoding/json"
 	"fmt"
@@ -34,6 +36,11 @@ type C17Case struct {
 type c17History struct {
 	name string
 	xmls []string
+	// viaFile: every dictionary is written to a file and loaded with Parser.LoadFile; equal XML
+	// strings use one path (the same file loaded again), edits[i] != "" replaces the CONTENT of the
+	// file step i is loaded from (an edited file reloaded from the same path)
+	viaFile bool
+	samePathAs map[int]int // step -> earlier step whose path it reuses although the content differs
 }
 
 func c17Family() []string {
@@ -66,14 +73,14 @@ func c17Histories() []c17History {
 		base = append(base, e.XML)
 	}
 	var hs []c17History
-	hs = append(hs, c17History{"embedded/default-order", base})
+	hs = append(hs, c17History{name: "embedded/default-order", xmls: base})
 	for r := 1; r < len(base); r++ {
-		hs = append(hs, c17History{fmt.Sprintf("embedded/rotation-%d", r), append(append([]string{}, base[r:]...), base[:r]...)})
+		hs = append(hs, c17History{name: fmt.Sprintf("embedded/rotation-%d", r), xmls: append(append([]string{}, base[r:]...), base[:r]...)})
 	}
 	for i := 0; i+1 < len(base); i++ {
 		x := append([]string{}, base...)
 		x[i], x[i+1] = x[i+1], x[i]
-		hs = append(hs, c17History{fmt.Sprintf("embedded/swap-%d-%d", i, i+1), x})
+		hs = append(hs, c17History{name: fmt.Sprintf("embedded/swap-%d-%d", i, i+1), xmls: x})
 	}
 	fam := c17Family()
 	perm := [][]int{}
@@ -95,9 +102,19 @@ func c17Histories() []c17History {
 		for _, i := range p {
 			x = append(x, fam[i])
 		}
-		hs = append(hs, c17History{fmt.Sprintf("generated-family/order-%v", p), x})
+		hs = append(hs, c17History{name: fmt.Sprintf("generated-family/order-%v", p), xmls: x})
 		// the family on top of the base dictionary
-		hs = append(hs, c17History{fmt.Sprintf("base+generated-family/order-%v", p), append([]string{base[0]}, x...)})
+		hs = append(hs, c17History{name: fmt.Sprintf("base+generated-family/order-%v", p), xmls: append([]string{base[0]}, x...)})
+	}
+	// the same dictionary loaded again after another one redefined its AVPs (most recently loaded
+	// wins), and a file that is edited and loaded again from the same path - through Load(io.Reader)
+	// and through LoadFile
+	grown := strings.Replace(fam[1], `</application>`, `<avp name="Added-Later" code="9044" must="M"><data type="Unsigned32"/></avp></application>`, 1)
+	for _, viaFile := range []bool{false, true} {
+		tag := map[bool]string{false: "reader", true: "file"}[viaFile]
+		hs = append(hs, c17History{name: "reload/" + tag + "/f0-f3-f0", xmls: []string{fam[0], fam[3], fam[0]}, viaFile: viaFile})
+		hs = append(hs, c17History{name: "reload/" + tag + "/f1-f2-f1-f3-f1", xmls: []string{fam[1], fam[2], fam[1], fam[3], fam[1]}, viaFile: viaFile})
+		hs = append(hs, c17History{name: "reload/" + tag + "/edited-file", xmls: []string{fam[0], fam[1], grown}, viaFile: viaFile, samePathAs: map[int]int{2: 1}})
 	}
 	// one file with several <application> elements: bare re-declarations of already loaded
 	// applications (as one writes to name a dependency) before, between and after populated ones
@@ -120,8 +137,8 @@ func c17Histories() []c17History {
 		return b.String()
 	}
 	for _, order := range []string{"bp", "pb", "bpq", "pbq", "pqb", "zbpq", "bzqp"} {
-		hs = append(hs, c17History{"multi-application-file/" + order, []string{base[0], base[1], multi(order)}})
-		hs = append(hs, c17History{"multi-application-file/fresh/" + order, []string{multi(order)}})
+		hs = append(hs, c17History{name: "multi-application-file/" + order, xmls: []string{base[0], base[1], multi(order)}})
+		hs = append(hs, c17History{name: "multi-application-file/fresh/" + order, xmls: []string{multi(order)}})
 	}
 	return hs
 }
@@ -327,8 +344,40 @@ func c17RunHistory(h c17History, ctx *ev.Ctx) (queries int, cs *C17Case, what st
 		c17Future.Load(x)
 	}
 	defer func() { c17Future = nil }()
+	var dir string
+	paths := map[string]string{}
+	stepPath := map[int]string{}
+	if h.viaFile {
+		d, err := os.MkdirTemp("", "c17-files-")
+		if err != nil {
+			ev.Infra("%v", err)
+		}
+		dir = d
+		defer os.RemoveAll(dir)
+	}
 	for i, x := range h.xmls {
-		if err := p.Load(bytes.NewReader([]byte(x))); err != nil {
+		var lerr error
+		if h.viaFile {
+			path, ok := paths[x]
+			if j, same := h.samePathAs[i]; same {
+				path, ok = stepPath[j], true
+			}
+			if !ok {
+				path = filepath.Join(dir, fmt.Sprintf("dict%d.xml", i))
+				paths[x] = path
+			}
+			stepPath[i] = path
+			if err := os.WriteFile(path, []byte(x), 0o644); err != nil {
+				ev.Infra("%v", err)
+			}
+			if i%2 == 1 {
+				path = filepath.Join(filepath.Dir(path), ".", filepath.Base(path)) // another spelling of the same path
+			}
+			lerr = p.LoadFile(path)
+		} else {
+			lerr = p.Load(bytes.NewReader([]byte(x)))
+		}
+		if err := lerr; err != nil {
 			return queries, &C17Case{History: h.name, Step: i + 1}, "Load failed: " + err.Error()
 		}
 		if err := m.Load(x); err != nil {
@@ -433,7 +482,7 @@ func runC17(ctx *ev.Ctx) {
 	}
 	ctx.Set("lookups_compared", total)
 	ctx.AddEvals(total, total)
-	ctx.Rule = "loading histories: dictionary files with several application elements (bare re-declarations of loaded applications before / between / after populated ones); the embedded dictionaries (extracted from diam/dict/default.go) in default order, every rotation and every adjacent swap; a generated family of four 3-AVP dictionaries that redefine each other's codes and names across application 0 / 4 / 16777251 and vendor variants, in all 24 orders, alone and on top of the base dictionary. After every Load - and after Loads that are rejected (a re-declared command, an undeclarable data type, truncated XML) following the first and the last dictionary of each history: FindAVPWithVendor by uint32 code, by int code and by name, FindAVP by int, FindCommand and App(id[,type]) for every application (loaded, children of the parent map, 0, an unrelated id) x every code / name present anywhere plus +-1 neighbours x vendor {declared, 0, another, wildcard}, plus every code looked up under two different vendor ids directly after one another, (the key space is that of ALL dictionaries of the history, so keys are also looked up while still undefined) are compared with the reference model, and everything resolvable before the Load must still be. Distinct by (history, query)."
+	ctx.Rule = "loading histories: a dictionary loaded again after another one redefined its AVPs and a file edited and reloaded from the same path (through Load and through LoadFile with temporary files); dictionary files with several application elements (bare re-declarations of loaded applications before / between / after populated ones); the embedded dictionaries (extracted from diam/dict/default.go) in default order, every rotation and every adjacent swap; a generated family of four 3-AVP dictionaries that redefine each other's codes and names across application 0 / 4 / 16777251 and vendor variants, in all 24 orders, alone and on top of the base dictionary. After every Load - and after Loads that are rejected (a re-declared command, an undeclarable data type, truncated XML) following the first and the last dictionary of each history: FindAVPWithVendor by uint32 code, by int code and by name, FindAVP by int, FindCommand and App(id[,type]) for every application (loaded, children of the parent map, 0, an unrelated id) x every code / name present anywhere plus +-1 neighbours x vendor {declared, 0, another, wildcard}, plus every code looked up under two different vendor ids directly after one another, (the key space is that of ALL dictionaries of the history, so keys are also looked up while still undefined) are compared with the reference model, and everything resolvable before the Load must still be. Distinct by (history, query)."
 	ctx.Assume = []string{"reference model refdict: application -> documented parents (16777251->4, 16777238->4, 4->1) -> base; exact vendor or wildcard; last load wins"}
 }
 
